@@ -674,7 +674,7 @@ func runTrace(in input) lib.Case {
 		for _, p := range ps {
 			p.Done() // otherwise CloseAll waits seconds for lingering instances
 		}
-		lt.CloseAll()
+		closeAll(lt)
 		cnt = nil
 	}()
 	var done []op
@@ -993,6 +993,21 @@ func generate(rng *rand.Rand, tier string) []interface{} {
 
 func corpus() []interface{} {
 	return []interface{}{templates()[0]}
+}
+
+// closeAll closes the cluster but does not wait for ever: a server whose Close hangs (that is
+// C10's subject) must not stall this harness; the cluster is then abandoned.
+func closeAll(lt *onet.LocalTest) {
+	done := make(chan struct{})
+	go func() {
+		defer func() { recover() }()
+		lt.CloseAll()
+		close(done)
+	}()
+	select {
+	case <-done:
+	case <-time.After(12 * time.Second):
+	}
 }
 
 func main() {
